@@ -1,1 +1,1 @@
-
+import RallyProofs.Versions
